@@ -1514,6 +1514,17 @@ private:
         haveCL = true;
         clValue = value;
       }
+      if (ciEquals(name, "Connection"))
+      {
+        // Connection is a list-valued field: several field lines are ONE list
+        // (RFC 9110 §5.3). Keeping only the last line would drop a "close" sent
+        // on an earlier line and leave a closing connection in the cache.
+        auto prev = resp.headers.find(name);
+        if (prev != resp.headers.end() && !prev->second.empty())
+        {
+          value = value.empty() ? prev->second : prev->second + ", " + value;
+        }
+      }
       resp.headers[name] = value;
       pos = (lnl == std::string::npos) ? hs.size() : lnl + 2;
     }
